@@ -218,6 +218,8 @@ def _d_randrange(start, stop=None, step=1):
     rng = range(start) if stop is None else range(start, stop, step)
     if len(rng) == 0:
         raise ValueError("empty range for randrange()")
+    if run.observer is not None:
+        run.observer("randrange", rng)
     k = run.choose(len(rng), None, "randrange")
     run.calls.append(("randrange", rng[k]))
     return rng[k]
@@ -326,9 +328,30 @@ def _d_sample(population, k, *, counts=None):
     if not 0 <= k <= len(pool):
         raise ValueError("Sample larger than population or is negative")
     out = []
-    for _ in range(k):
-        j = run.choose(len(pool), None, "sample")
-        out.append(pool.pop(j))
+    if all(_hashable(v) for v in pool):
+        # equal values are interchangeable: choose among the distinct remaining values with probability
+        # multiplicity/remaining (exact; the same reduction as for shuffle)
+        counts, order = {}, []
+        for v in pool:
+            if v not in counts:
+                counts[v] = 0
+                order.append(v)
+            counts[v] += 1
+        remaining = len(pool)
+        for _ in range(k):
+            vals = [v for v in order if counts[v] > 0]
+            if len(vals) == 1:
+                v = vals[0]
+            else:
+                j = run.choose(len(vals), [Fraction(counts[v], remaining) for v in vals], "sample")
+                v = vals[j]
+            counts[v] -= 1
+            remaining -= 1
+            out.append(v)
+    else:
+        for _ in range(k):
+            j = run.choose(len(pool), None, "sample")
+            out.append(pool.pop(j))
     run.calls.append(("sample", list(out)))
     return out
 
